@@ -293,6 +293,8 @@ def check_case(case, stats=None):
         return check_chain(case)
     if case.get("mode") == "stuck":
         return check_stuck(case)
+    if case.get("mode") == "progress":
+        return check_progress(case)
     try:
         rf, rl = reference(case, stats)
     except OutOfScope as ex:
@@ -383,6 +385,42 @@ def check_chain(case):
         if ge is not None or gf != expect_frames + ["A"] or gl is not None:
             return "viol", "chain of %d unwraps: frames=%s leaf=%s error=%r" % (n, gf, gl, ge), "chain-short"
     return "ok", "", ""
+
+
+def check_progress(case):
+    """Deep but honest nesting: n levels, each a run of `run` plain wrappers followed by an item that hands over
+    (frame, next level). Every frame is progress, so no amount of total depth is a runaway: exactly the n frames, the
+    final irreducible item as leaf (if any), no error."""
+    n, run, kind, end = case["n"], case["run"], case["kind"], case["end"]
+    unwrap = {}
+    names = "ABCDEFGH"
+    for i in range(n):
+        for j in range(run):
+            unwrap["w%d_%d" % (i, j)] = ["one", ["w%d_%d" % (i, j + 1) if j + 1 < run else "d%d" % i]]
+        nxt = ("w%d_0" % (i + 1) if run else "d%d" % (i + 1)) if i + 1 < n else None
+        if nxt is None and end == "leaf":
+            nxt = "z"
+        unwrap["d%d" % i] = [kind, [names[i % 8]] + ([nxt] if nxt else [])]
+    unwrap["z"] = None
+    c = {"root": "w0_0" if run else "d0", "unwrap": unwrap, "elab": {}}
+    try:
+        gf, gl, ge = run_impl(c)
+    except BaseException as ex:  # noqa
+        if isinstance(ex, KeyboardInterrupt):
+            raise
+        return "viol", "extract raised/hung %s: %s on %s" % (type(ex).__name__, ex, case), "progress-raised"
+    exp = [names[i % 8] for i in range(n)]
+    if gf != exp or ge is not None or gl != ("z" if end == "leaf" else None):
+        return "viol", "%s: %d frames (expected %d), first difference at %s, leaf=%s error=%r" % (
+            case, len(gf), n, next((i for i, (a, b) in enumerate(zip(gf, exp)) if a != b), min(len(gf), len(exp))), gl, ge), "progress"
+    return "ok", "", ""
+
+
+def gen_progress():
+    for n, run in ((3, 0), (3, 2), (99, 0), (100, 0), (101, 0), (102, 0), (150, 0), (300, 0), (3, 40), (3, 60), (2, 99), (51, 1), (34, 2), (26, 3), (60, 4)):
+        for kind in ("tuple", "list", "iter"):
+            for end in ("frame", "leaf"):
+                yield {"mode": "progress", "n": n, "run": run, "kind": kind, "end": end}
 
 
 # ---------------------------------------------------------------- enumeration
@@ -476,7 +514,7 @@ def gen_stuck():
 def run(ctx):
     stats = RefStats()
     idx = 0
-    for case in itertools.chain(gen_chains(), gen_stuck(), gen_cases(ctx.tier)):
+    for case in itertools.chain(gen_chains(), gen_stuck(), gen_progress(), gen_cases(ctx.tier)):
         idx += 1
         if not ctx.mine(idx):
             continue
@@ -489,7 +527,7 @@ def run(ctx):
             ctx.count("oos:" + detail)
             continue
         ctx.count("traces_validated_against_impl")
-        if case.get("mode") in ("chain", "stuck") or case["elab"]:
+        if case.get("mode") in ("chain", "stuck", "progress") or case["elab"]:
             ctx.count("distinct_nontrivial")
         if status == "viol":
             ctx.violation(case, detail, sig)
